@@ -17,6 +17,12 @@ class Conv:
     def ask(self, line):
         self.log.append(line)
         self.p.stdin.write((line + "\n").encode()); self.p.stdin.flush()
+        # one answer line per request; a driver that does not answer within the bound is killed (a change that
+        # makes a solver loop must not hang the harness)
+        import select
+        if not select.select([self.p.stdout], [], [], 30)[0]:
+            self.p.kill()
+            raise RuntimeError("driver timeout after: " + line)
         out = self.p.stdout.readline().decode()
         if not out:
             raise RuntimeError("driver died after: " + line)
